@@ -1243,7 +1243,15 @@ impl ser::SerializeSeq for ValueSerializeVec {
     where
         T: ser::Serialize + ?Sized,
     {
-        self.vec.push(Value::try_from(value)?);
+        match Value::try_from(value) {
+            Ok(value) => self.vec.push(value),
+            // `None` cannot be skipped inside a sequence; do not let an enclosing table
+            // mistake this for a `None` field and silently drop the whole entry
+            Err(crate::ser::Error {
+                inner: crate::edit::ser::Error::UnsupportedNone,
+            }) => return Err(ser::Error::custom("unsupported None value")),
+            Err(e) => return Err(e),
+        }
         Ok(())
     }
 
